@@ -179,6 +179,32 @@ def attr_reads(prog, fi, param, depth=3, _seen=None):
     return out
 
 
+def passes_as_keyword(prog, fi, param, names, depth=2, _seen=None):
+    """True when ``param`` itself is handed on under one of the keyword names ``names`` (``node=param`` / ``nodes=[param]``),
+    in ``fi`` or in a resolved callee that receives ``param`` (followed up to ``depth``)."""
+    _seen = _seen if _seen is not None else set()
+    if (fi.key, param) in _seen:
+        return False
+    _seen.add((fi.key, param))
+    for n in ast.walk(fi.node):
+        if isinstance(n, ast.keyword) and n.arg in names and any(isinstance(x, ast.Name) and x.id == param for x in ast.walk(n.value)):
+            return True
+        if isinstance(n, ast.Call) and depth > 0:
+            for i, a in enumerate(n.args):
+                if isinstance(a, ast.Name) and a.id == param:
+                    for callee in prog.resolve_call(fi, n):
+                        ps = callee.params
+                        off = 1 if (callee.cls is not None and ps and ps[0] in ("self", "cls")) else 0
+                        if i + off < len(ps) and passes_as_keyword(prog, callee, ps[i + off], names, depth - 1, _seen):
+                            return True
+            for kw in n.keywords:
+                if isinstance(kw.value, ast.Name) and kw.value.id == param and kw.arg:
+                    for callee in prog.resolve_call(fi, n):
+                        if kw.arg in callee.all_params and passes_as_keyword(prog, callee, kw.arg, names, depth - 1, _seen):
+                            return True
+    return False
+
+
 def calls_in(fn_node, own=True):
     it = own_nodes(fn_node) if own else ast.walk(fn_node)
     for n in it:
